@@ -176,6 +176,9 @@ pub struct Ctx {
     /// is indexed last (C15 "written for other data": the same facts in another order are other data
     /// to every query that ties across assets)
     pub ren: Option<Box<Alt>>,
+    /// a fifth build: the repository at the recorded baseline commit (absent when the tree under test
+    /// does not differ from it)
+    pub base: Option<Box<Alt>>,
     /// number of tie phrases in `qprime` (between the own words and the fake phrases)
     pub qprime_ties: usize,
     /// the ptrace injector (strace) is usable in this sandbox
@@ -191,7 +194,7 @@ pub struct Alt {
 
 impl Ctx {
     pub fn session(&self, cpus: usize, faults: Vec<Fault>, ops: Vec<Op>) -> Session {
-        Session { cpus, faults, ops, expected_docs: self.expected_docs, repo: self.repo.clone(), alt: false, ver: false, ren: false, env: vec![], rand: 0 }
+        Session { cpus, faults, ops, expected_docs: self.expected_docs, repo: self.repo.clone(), alt: false, ver: false, ren: false, base: false, env: vec![], rand: 0 }
     }
     /// the data and reference of build 0 (this tree), 1 (other data) or 2 (other version)
     pub fn side_b(&self, build: u8) -> (&Shipped, &Reference) {
@@ -199,7 +202,10 @@ impl Ctx {
             (1, Some(a), _, _) => (&a.shipped, &a.reference),
             (2, _, Some(v), _) => (&v.shipped, &v.reference),
             (3, _, _, Some(r)) => (&r.shipped, &r.reference),
-            _ => (&self.shipped, &self.reference),
+            _ => match (build, &self.base) {
+                (4, Some(b)) => (&b.shipped, &b.reference),
+                _ => (&self.shipped, &self.reference),
+            },
         }
     }
     /// the data and reference against which step `i` of a trace is judged
@@ -326,7 +332,14 @@ pub fn run_history(ctx: &Ctx, h: &History, work: &Path, rotate: usize) -> Trace 
                             s.expected_docs = r.shipped.docs();
                             &r.launcher
                         }
-                        _ => &ctx.launcher,
+                        _ => match (&ctx.base, s.base) {
+                            (Some(b), true) => {
+                                s.repo = b.repo.clone();
+                                s.expected_docs = b.shipped.docs();
+                                &b.launcher
+                            }
+                            _ => &ctx.launcher,
+                        },
                     },
                 };
                 if s.repo.is_empty() {
@@ -344,7 +357,7 @@ pub fn run_history(ctx: &Ctx, h: &History, work: &Path, rotate: usize) -> Trace 
                         let release = xdg.root.join(".verif-release");
                         let _ = std::fs::remove_file(&marker);
                         let _ = std::fs::remove_file(&release);
-                        let holder = Session { cpus: 1, faults: vec![], ops: vec![Op::HoldWriter { ms: ms + 60_000 }], expected_docs: 0, repo: s.repo.clone(), alt: false, ver: false, ren: false, env: vec![], rand: 1 };
+                        let holder = Session { cpus: 1, faults: vec![], ops: vec![Op::HoldWriter { ms: ms + 60_000 }], expected_docs: 0, repo: s.repo.clone(), alt: false, ver: false, ren: false, base: false, env: vec![], rand: 1 };
                         let (out, held) = std::thread::scope(|sc| {
                             let hj = sc.spawn(|| ctx.launcher.simnode(&xdg, work, &format!("h{i}"), &holder, rotate));
                             let t0 = std::time::Instant::now();
@@ -412,7 +425,8 @@ pub fn run_history(ctx: &Ctx, h: &History, work: &Path, rotate: usize) -> Trace 
         let alt = matches!(step, Step::Start { session } if session.alt) && ctx.alt.is_some();
         let ver = matches!(step, Step::Start { session } if session.ver) && ctx.ver.is_some();
         let ren = matches!(step, Step::Start { session } if session.ren) && ctx.ren.is_some();
-        let build = if alt { 1 } else if ver { 2 } else if ren { 3 } else { 0 };
+        let base = matches!(step, Step::Start { session } if session.base) && ctx.base.is_some();
+        let build = if alt { 1 } else if ver { 2 } else if ren { 3 } else if base { 4 } else { 0 };
         let dir = dirstate::inspect(&xdg, ctx.side_b(build).0);
         trace.steps.push(StepOut { dir, child, alt, build });
     }
